@@ -54,7 +54,7 @@ fn normalize(p: &Path) -> PathBuf {
 
 /// The files a source consists of, relative to the corpus root, sorted.
 pub fn closure(source_rel: &str) -> Vec<String> {
-    if source_rel.starts_with('/') || source_rel.starts_with("gen:") || source_rel.starts_with("extra:") {
+    if source_rel.starts_with('/') || source_rel.starts_with("gen:") || source_rel.starts_with("extra:") || source_rel.starts_with("hostile:") {
         // not part of the corpus tree that gets copied and corrupted
         return Vec::new();
     }
@@ -197,6 +197,13 @@ fn apply_one(root: &Path, f: &Fault, target: &str, created: &mut Vec<String>) ->
                 fs::remove_file(&path).ok()?;
             }
             return Some(format!("deleted {target}"));
+        }
+        "src-chain" => {
+            // the simulator runs one coroutine per job and counts scheduling steps: a thousand
+            // extra glyphs is about a million steps, well inside the step bound; much longer
+            // chains would exhaust the bound (a false 'hang') before they exhaust fontc
+            let n = if f.nth > 0 { f.nth } else { *rng.pick(&[40usize, 300, 1000]) };
+            return add_component_chain(root, target, n, created);
         }
         _ => {}
     }
@@ -428,6 +435,39 @@ fn apply_one(root: &Path, f: &Fault, target: &str, created: &mut Vec<String>) ->
             };
             (new.into_bytes(), format!("{what} ({stmt} added to {target})"))
         }
+        "src-tokens" => {
+            let text = String::from_utf8_lossy(&data).to_string();
+            let words = words_for(target, &text);
+            // a sibling of the same kind to splice from
+            let donor = path.parent().and_then(|dir| {
+                let mut sibs = Vec::new();
+                list_files(dir, &mut sibs);
+                sibs.retain(|p| p != &path && p.extension() == path.extension());
+                sibs.sort();
+                if sibs.is_empty() { None } else { fs::read(&sibs[rng.below(sibs.len())]).ok() }
+            });
+            let donor = donor.map(|d| String::from_utf8_lossy(&d).to_string());
+            let (new, log) = mutate_tokens(&mut rng, &text, words, donor.as_deref());
+            (new.into_bytes(), format!("token edits {} in {target}", log.join(" ")))
+        }
+        "src-long" => {
+            let text = String::from_utf8_lossy(&data).to_string();
+            let spans = string_spans(&text);
+            if spans.is_empty() {
+                return None;
+            }
+            let (s, e) = spans[rng.below(spans.len())];
+            let len = *rng.pick(&[64usize, 256, 300, 4000, 20_000, 70_000]);
+            let unit = if text[s..e].trim().is_empty() { "a" } else { text[s..e].trim() };
+            let mut long = unit.repeat(len / unit.len().max(1) + 1);
+            let mut cut = len.min(long.len());
+            while !long.is_char_boundary(cut) {
+                cut -= 1;
+            }
+            long.truncate(cut);
+            let new = format!("{}{}{}", &text[..s], long, &text[e..]);
+            (new.into_bytes(), format!("string {:?} at {s} of {target} grown to {len} bytes", crate::oracle::trunc(&text[s..e], 40)))
+        }
         _ => return None,
     };
     fs::write(&path, new).ok()?;
@@ -460,4 +500,215 @@ pub const BYTE_FAULT_KINDS: &[&str] = &[
     "src-nest",
     "src-soup",
     "src-include",
+    "src-tokens",
+    "src-long",
+    "src-chain",
 ];
+
+// ---- token-level mutation, long strings, deep component chains ----
+
+const FEA_WORDS: &[&str] = &[
+    "[", "]", "{", "}", "(", ")", "<", ">", "'", ";", "-", "@", "\\", "#", "\"", "99999999999999999999", "-32769", "65536", "0",
+    "by", "from", "sub", "pos", "lookup", "feature", "include(", "NULL", "enum", "ignore", "markClass", "mark", "base", "ligature",
+    "cursive", "anchor", "device", "useExtension", "table", "name", "script", "language", "languagesystem", "subtable", "anon",
+    "conditionset", "variation", "contourpoint", "ligComponent", "rsub", "lookupflag", "MarkAttachmentType", "UseMarkFilteringSet",
+    "parameters", "featureNames", "cvParameters", "sizemenuname", "valueRecordDef", "anchorDef", "(wght=1:1)", "$[", "${", "a-z",
+    "\\1-\\999", ":", "=", ",", "wght", "abcde",
+];
+const OPENSTEP_WORDS: &[&str] = &[
+    "(", ")", "{", "}", ";", "=", ",", "\"", "0", "-1", "99999999999999999999", "1e308", "nan", "inf", "(0,0)", "{0, 0}", "ref", "nodes",
+    "layers", "glyphname", "unicode", "shapes", "components", "anchors", "name", "pos", "\\", "/*", "*/", "//", "<", ">", "1", "65536",
+];
+const XML_WORDS: &[&str] = &[
+    "<", ">", "</", "/>", "\"", "=", "&", "&amp;", "&#0;", "<array>", "</array>", "<dict>", "</dict>", "<key>", "</key>", "<string>", "</string>",
+    "<integer>", "</integer>", "<real>", "</real>", "<true/>", "<false/>", "x", "0", "-0", "99999999999999999999", "1e308", "NaN", "<!--", "-->",
+    "<![CDATA[", "]]>", "<?", "?>", "<component base=\"a\"/>", "<contour>", "</contour>", "<point x=\"0\" y=\"0\"/>", "<outline>", "</outline>",
+    "<anchor name=\"top_1\" x=\"0\" y=\"0\"/>", "<unicode hex=\"0041\"/>", "<advance width=\"1e308\"/>",
+];
+
+fn words_for(target: &str, text: &str) -> &'static [&'static str] {
+    if target.ends_with(".fea") {
+        FEA_WORDS
+    } else if text.trim_start().starts_with('<') {
+        XML_WORDS
+    } else {
+        OPENSTEP_WORDS
+    }
+}
+
+/// whitespace runs, words (`[A-Za-z_@\\.][\w.-]*`), integers, and every other char alone
+fn tokens(text: &str) -> Vec<&str> {
+    let b = text.as_bytes();
+    let mut out = Vec::new();
+    let mut i = 0;
+    let word_start = |c: u8| c.is_ascii_alphabetic() || matches!(c, b'_' | b'@' | b'\\' | b'.');
+    let word_more = |c: u8| c.is_ascii_alphanumeric() || matches!(c, b'_' | b'.' | b'-');
+    while i < b.len() {
+        let start = i;
+        let c = b[i];
+        if c.is_ascii_whitespace() {
+            while i < b.len() && b[i].is_ascii_whitespace() {
+                i += 1;
+            }
+        } else if word_start(c) {
+            i += 1;
+            while i < b.len() && word_more(b[i]) {
+                i += 1;
+            }
+        } else if c.is_ascii_digit() || (c == b'-' && i + 1 < b.len() && b[i + 1].is_ascii_digit()) {
+            i += 1;
+            while i < b.len() && b[i].is_ascii_digit() {
+                i += 1;
+            }
+        } else {
+            i += 1;
+            while i < b.len() && !text.is_char_boundary(i) {
+                i += 1;
+            }
+        }
+        out.push(&text[start..i]);
+    }
+    out
+}
+
+/// A few token-level edits: delete, insert, replace, swap, repeat a run, drop a run, grow a
+/// token, splice from a sibling file, cut
+fn mutate_tokens(rng: &mut Prng, text: &str, words: &[&str], donor: Option<&str>) -> (String, Vec<String>) {
+    let mut t: Vec<String> = tokens(text).into_iter().map(|s| s.to_string()).collect();
+    let mut log = Vec::new();
+    let rounds = *rng.pick(&[1usize, 1, 2, 3, 5, 8]);
+    for _ in 0..rounds {
+        if t.is_empty() {
+            t.push(";".into());
+        }
+        let i = rng.below(t.len());
+        match rng.below(9) {
+            0 => {
+                log.push(format!("del@{i}"));
+                t.remove(i);
+            }
+            1 => {
+                let w = *rng.pick(words);
+                log.push(format!("ins@{i}:{w}"));
+                t.insert(i, w.to_string());
+            }
+            2 => {
+                let w = *rng.pick(words);
+                log.push(format!("set@{i}:{w}"));
+                t[i] = w.to_string();
+            }
+            3 => {
+                let j = rng.below(t.len());
+                log.push(format!("swap@{i},{j}"));
+                t.swap(i, j);
+            }
+            4 => {
+                let j = (i + 1 + rng.below(11)).min(t.len());
+                let times = *rng.pick(&[2usize, 3, 50, 1000, 12000]);
+                // keep the result under a few MB
+                let times = times.min(1 + 3_000_000 / t[i..j].iter().map(|s| s.len()).sum::<usize>().max(1));
+                log.push(format!("rep@{i}..{j}x{times}"));
+                let run: Vec<String> = t[i..j].to_vec();
+                let mut grown = Vec::with_capacity(run.len() * times);
+                for _ in 0..times {
+                    grown.extend(run.iter().cloned());
+                }
+                t.splice(i..i, grown);
+            }
+            5 => {
+                let j = (i + 1 + rng.below(29)).min(t.len());
+                log.push(format!("drop@{i}..{j}"));
+                t.drain(i..j);
+            }
+            6 => {
+                let times = *rng.pick(&[2usize, 100, 5000]);
+                let times = times.min(1 + 1_000_000 / t[i].len().max(1));
+                log.push(format!("grow@{i}x{times}"));
+                t[i] = t[i].repeat(times);
+            }
+            7 => {
+                if let Some(d) = donor {
+                    let o = tokens(d);
+                    if !o.is_empty() {
+                        let k = rng.below(o.len());
+                        let n = (1 + rng.below(39)).min(o.len() - k);
+                        log.push(format!("splice@{i}+{n}"));
+                        t.splice(i..i, o[k..k + n].iter().map(|s| s.to_string()));
+                    }
+                }
+            }
+            _ => {
+                log.push(format!("cut@{i}"));
+                t.truncate(i);
+            }
+        }
+    }
+    (t.concat(), log)
+}
+
+/// Spans that hold a name or a string: XML text content and attribute values, quoted strings,
+/// and bare words after `=` in the OpenStep format
+fn string_spans(text: &str) -> Vec<(usize, usize)> {
+    let b = text.as_bytes();
+    let mut out = Vec::new();
+    let mut i = 0;
+    while i < b.len() {
+        match b[i] {
+            b'"' => {
+                let start = i + 1;
+                let mut j = start;
+                while j < b.len() && b[j] != b'"' && b[j] != b'\n' {
+                    j += if b[j] == b'\\' { 2 } else { 1 };
+                }
+                let j = j.min(b.len());
+                if j > start && text.is_char_boundary(start) && text.is_char_boundary(j) {
+                    out.push((start, j));
+                }
+                i = j + 1;
+            }
+            b'>' => {
+                let start = i + 1;
+                let mut j = start;
+                while j < b.len() && b[j] != b'<' {
+                    j += 1;
+                }
+                if j > start && !text[start..j].trim().is_empty() && text.is_char_boundary(j) {
+                    out.push((start, j));
+                }
+                i = j.max(i + 1);
+            }
+            _ => i += 1,
+        }
+    }
+    out
+}
+
+/// `n` new glyphs in the glyph directory of `glif`, each a composite of the next, the last one
+/// of the target glyph; registered in contents.plist
+fn add_component_chain(root: &Path, target: &str, n: usize, created: &mut Vec<String>) -> Option<String> {
+    let glif_path = root.join(target);
+    let text = fs::read_to_string(&glif_path).ok()?;
+    let leaf = text.split("<glyph name=\"").nth(1).and_then(|s| s.split('"').next())?.to_string();
+    let dir = glif_path.parent()?;
+    let dir_rel = Path::new(target).parent()?.to_string_lossy().to_string();
+    let contents_path = dir.join("contents.plist");
+    let contents = fs::read_to_string(&contents_path).ok()?;
+    let at = contents.rfind("</dict>")?;
+    let mut entries = String::new();
+    for i in 0..n {
+        let name = format!("verifchain{i:05}");
+        let file = format!("verifchain{i:05}.glif");
+        let next = if i + 1 < n { format!("verifchain{:05}", i + 1) } else { leaf.clone() };
+        let uni = if i == 0 { "<unicode hex=\"E000\"/>" } else { "" };
+        let body = format!(
+            "<?xml version=\"1.0\" encoding=\"UTF-8\"?>\n<glyph name=\"{name}\" format=\"2\"><advance width=\"500\"/>{uni}<outline><component base=\"{next}\" xOffset=\"1\"/></outline></glyph>\n"
+        );
+        fs::write(dir.join(&file), body).ok()?;
+        created.push(format!("{dir_rel}/{file}"));
+        entries.push_str(&format!("<key>{name}</key><string>{file}</string>\n"));
+    }
+    let new_contents = format!("{}{}{}", &contents[..at], entries, &contents[at..]);
+    fs::write(&contents_path, new_contents).ok()?;
+    created.push(format!("{dir_rel}/contents.plist"));
+    Some(format!("{n} new glyphs in {dir_rel}, each a component of the next, ending in {leaf}"))
+}
